@@ -20,6 +20,9 @@ _c04_quick = []
 for q in _q_variants:
     for r in RECL_QUICK:
         _c04_quick.append(run("queues", "%s_%s" % (q, r), c=1 if r == "stamp" else 2, weight=1.0))
+# element identity with move-only elements (seed C04c: a refused node-local push destroyed the element it was asked to hand back)
+for t in ["nik_e1_up_hp", "ram_e1_up_hp", "ms_up_hp"]:
+    _c04_quick.append(run("ownership", t, c=2, weight=0.7))
 _c04_thorough = []
 for q in _q_variants:
     for r in RECL_ALL:
@@ -243,7 +246,7 @@ for t in _own_tests:
     _c07_thorough.append(run("ownership", t, c=2, weight=2))
     _c07_thorough.append(run("ownership", t, c=2, opt={"T": 3, "m": 1, "prefill": 1}, weight=1))
     _c07_thorough.append(run("ownership", t, c=0, opt={"T": 1, "m": 8}, weight=0.3))
-for t in ["ram_e1_up_hp", "ram_e2_up_hp", "nik_e1_up_hp", "kf_k1_up_hp", "kb_k1s2_up", "nb_c1_up", "vb_s2_up", "ms_up_hp"]:
+for t in ["ram_e1_up_hp", "ram_e2_up_hp", "nik_e1_up_hp", "kf_k1_up_hp", "kf_k2_up_hp", "kb_k1s2_up", "nb_c1_up", "vb_s2_up", "ms_up_hp"]:
     _c07_quick.append(run("ownership", t, c=2, weight=2))
     _c07_thorough.append(run("ownership", t, c=3, opt={"prefill": 1}, weight=6))
     _c07_thorough.append(run("ownership", t, c=2, heap="reuse", weight=1))
@@ -350,6 +353,8 @@ _c08_quick = [
     run("hm", "map_b1_hp", c=1, heap="reuse", opt={"ops": 0x23, "prefill": 2}),
     # immediate address reuse with era-based protection (finding F-C01-2 surfaced through find() -> acquire_if_equal)
     run("hm", "set_he", c=1, heap="reuse", opt={"ops": 0x7}), run("hm", "map_b1_he", c=1, heap="reuse", opt={"ops": 0x23, "prefill": 2}),
+    # key type whose move constructor modifies its source (seed C08c: search with a key that has been moved into the node)
+    run("hm", "map_mk_b1_hp", c=1, opt={"ops": 0x63}), run("hm", "map_mk_b1_memo_scr_ebr", c=1, opt={"ops": 0x23}, weight=0.5),
     run("hm", "map_b1_memo_scr_hp", c=0, opt={"T": 1, "m": 4, "ops": 0x1ff}), run("hm", "set_hp", c=0, opt={"T": 1, "m": 4, "ops": 0x9f}),
     run("hm", "map_b2_memo_scr_hp", c=0, opt={"T": 1, "m": 4, "ops": 0x1ff, "keys": 3, "prefill": 5}),
 ]
@@ -361,6 +366,9 @@ _c08_thorough = [run("hm", "set_" + r, c=1, opt={"ops": 0x97}, weight=3 if r == 
     [run("hm", t, c=2, opt={"ops": 0x3, "T": 3, "m": 1, "keys": 1}, weight=1) for t in ["set_hp", "set_ebr", "set_lfrc", "map_b1_hp", "map_b1_lfrc"]] + \
     [run("hm", t, c=1, heap="reuse", opt={"ops": 0x63}, weight=1) for t in ["map_b1_hp", "map_b1_ebr", "set_hp", "map_b1_he", "map_b1_lfrc", "map_b1_qsbr"]] + \
     [run("hm", t, c=2, heap="reuse", opt={"ops": 0x7}, weight=2) for t in ["set_he", "set_hed", "set_hp", "set_lfrc", "map_b1_he"]] + \
+    [run("hm", t, c=1, opt={"ops": 0x1e3}, weight=2) for t in ["map_mk_b1_hp", "map_mk_b1_memo_scr_ebr", "map_mk_b2_lfrc"]] + \
+    [run("hm", "map_mk_b1_hp", c=2, opt={"ops": 0x63, "keys": 1}, weight=2), run("hm", "map_mk_b1_hp", c=0, opt={"T": 1, "m": 4, "ops": 0x1ff}, weight=1)] + \
+    [run("hm", t, c=1, variant="dbg", opt={"ops": 0xa7}, weight=1) for t in ["map_b1_hp", "map_b1_memo_scr_ebr", "set_hp"]] + \
     [run("hm", "map_b1_memo_scr_hp", c=0, opt={"T": 1, "m": 5, "ops": 0x1ff}, weight=3), run("hm", "set_hp", c=0, opt={"T": 1, "m": 6, "ops": 0x9f}, weight=3),
      run("hm", "map_b2_memo_scr_hp", c=0, opt={"T": 1, "m": 4, "ops": 0x1ff, "keys": 3}, weight=3), run("hm", "set_greater_hp", c=0, opt={"T": 1, "m": 5, "ops": 0x9f, "keys": 3}, weight=3)]
 PLAN["C08"] = {
@@ -387,6 +395,10 @@ PLAN["C09"] = {
              [run("hm", t, c=1, heap="reuse", opt={"keys": 2}, weight=1) for t in ["iset_he", "iset_hp"]],
     "thorough": [run("hm", t, c=0, opt={"updaters": 0, "steps": 4}, weight=1) for t in _it_seq] +
                 [run("hm", t, c=2, heap="reuse", opt={"keys": 2}, weight=3) for t in ["iset_he", "iset_hp", "imap_b1_he", "iset_lfrc"]] +
+                # re-scan from a position behind the head while three updaters change the list (seed C09c); library asserts armed (dbg)
+                [run("hm", t, c=2, variant="dbg", opt={"fixed": 1, "steps": 3}, weight=6) for t in ["iset_hp", "imap_b1_hp"]] +
+                [run("hm", "iset_hp", c=3, opt={"fixed": 1, "steps": 3}, weight=6)] +
+                [run("hm", t, c=1, variant="dbg", opt={"keys": 2}, weight=1) for t in ["iset_hp", "iset_ebr", "imap_b1_memo_scr_hp"]] +
                 [run("hm", t, c=2, opt={"keys": 2}, weight=8 if "stamp" in t else 4) for t in _it_conc] +
                 [run("hm", t, c=1, opt={"keys": 3, "m": 2}, weight=3) for t in ["iset_hp", "imap_b1_memo_scr_hp", "iset_lfrc", "imap_b2_memo_scr_hp"]] +
                 [run("hm", t, c=1, opt={"keys": 2, "m": 1, "updaters": 2}, weight=3) for t in ["iset_hp", "imap_b1_memo_scr_hp", "iset_ebr", "iset_lfrc"]],
